@@ -163,4 +163,59 @@ theorem run_sameView {E : Env} {P : Nat} (i j : Nat) (hji : j ≠ i) :
     exact hstep.trans (run_sameView i j hji h _ (step_good g op hok)
       (fun o ho => H o (List.mem_cons_of_mem _ ho)) hj')
 
+/-! ### First read -/
+
+theorem ost_defaultValueFor_eq (E : Env) (t : TraitCore) (s : OSt) :
+    s.defaultValueFor E t =
+      ((Attr.defaultValueFor E t s.self s.name s.ctx).1, { s with ctx := (Attr.defaultValueFor E t s.self s.name s.ctx).2 }) := by
+  unfold OSt.defaultValueFor
+  cases Attr.defaultValueFor E t s.self s.name s.ctx
+  rfl
+
+theorem getattrTrait_nopost (E : Env) (t : TraitCore) (s : OSt) (hp : t.post = none) :
+    getattrTrait E t s =
+      match (Attr.defaultValueFor E t s.self s.name s.ctx).1 with
+      | .error e => (.error e, { s with ctx := (Attr.defaultValueFor E t s.self s.name s.ctx).2 })
+      | .ok v => (.ok v, { s with slot := some v, ctx := (Attr.defaultValueFor E t s.self s.name s.ctx).2 }) := by
+  unfold getattrTrait
+  rw [ost_defaultValueFor_eq]
+  cases (Attr.defaultValueFor E t s.self s.name s.ctx).1 with
+  | error e => rfl
+  | ok v =>
+    simp only [postSetattr, hp, callNotifiers_uninit']
+    split <;> rfl
+
+theorem first_read (E : Env) (w : World) (i : Nat) (n : Name) (o : Inst) (td : TraitDef)
+    (hi : w.insts[i]? = some o) (ht : w.traitOf o n = some td) (hk : td.core.kind = .trait)
+    (hp : td.core.post = none) (hs : assocGet o.dict n = none) :
+    (∀ v, (Attr.defaultValueFor E td.core o.oid n w.ctx).1 = .ok v →
+      (World.step E w (.get i n)).1 = { val := some v }
+      ∧ ∃ o', (World.step E w (.get i n)).2.insts[i]? = some o' ∧ assocGet o'.dict n = some v)
+    ∧ (∀ e, (Attr.defaultValueFor E td.core o.oid n w.ctx).1 = .error e →
+      (World.step E w (.get i n)).1 = { exc := some e }) := by
+  have hslot : (w.focus o n).slot = none := hs
+  have hg : getattro E td.core (w.focus o n) = getattrTrait E td.core (w.focus o n) := by
+    unfold getattro traitGetattr
+    simp only [hslot, hk]
+  have hnp := getattrTrait_nopost E td.core (w.focus o n) hp
+  have hself : (w.focus o n).self = o.oid := rfl
+  have hname : (w.focus o n).name = n := rfl
+  have hctx : (w.focus o n).ctx = w.ctx := rfl
+  rw [hself, hname, hctx] at hnp
+  constructor
+  · intro v hv
+    rw [hv] at hnp
+    obtain ⟨s', h1, h2⟩ : ∃ s', Attr.step E td.core (w.focus o n) .get = ({ val := some v }, s') ∧
+        s'.slot = some v := ⟨_, by unfold Attr.step; rw [hg, hnp], rfl⟩
+    simp only [World.step, World.onAttr, hi, ht, h1, true_and]
+    refine ⟨_, setInst_get_self w i o _ _ hi, ?_⟩
+    unfold Inst.absorb
+    simp only [h2]
+    exact assocGet_assocSet_self _ _ _
+  · intro e he
+    rw [he] at hnp
+    obtain ⟨s', h1⟩ : ∃ s', Attr.step E td.core (w.focus o n) .get = ({ exc := some e }, s') :=
+      ⟨_, by unfold Attr.step; rw [hg, hnp]⟩
+    simp only [World.step, World.onAttr, hi, ht, h1]
+
 end TraitsVerif.Model.Attr
